@@ -71,10 +71,15 @@ Theorem C09_witness_in_array_small_objstruct :
   exists ps, check_params ps false false false false = Ok tt /\ rule_no_array_of_objstruct (map abs_param ps) = false.
 Proof. eexists. exact in_array_small_objstruct_accepted. Qed.
 Print Assumptions C09_witness_in_array_small_objstruct.
-Theorem C09_witness_lib_entry :
-  exists files, is_ok (front Lib Debug files) = true /\ is_ok (front Cli Debug files) = false.
-Proof. eexists. exact lib_skips_interface_verifier. Qed.
-Print Assumptions C09_witness_lib_entry.
+(* the pinned upstream library entry point skipped the interface verifier ... *)
+Theorem C09_witness_lib_entry_upstream :
+  exists files, is_ok (front_gen false Lib Debug files) = true /\ is_ok (front_gen false Cli Debug files) = false.
+Proof. eexists. exact lib_skips_interface_verifier_upstream. Qed.
+Print Assumptions C09_witness_lib_entry_upstream.
+(* ... the repaired one is the same function as the command line's (the tree being checked) *)
+Theorem C09_entry_points_agree_current : forall md files, front Lib md files = front Cli md files.
+Proof. exact entry_points_agree. Qed.
+Print Assumptions C09_entry_points_agree_current.
 Theorem C09_witness_included_decls :
   exists files, is_ok (front Cli Debug files) = true /\ rule_uniq_params files = false.
 Proof. eexists. exact included_decls_unchecked. Qed.
